@@ -13,3 +13,56 @@ package tooling
 //@ func DecompressZstd
 //@   mode int
 //@   trusted
+
+// ---------------------------------------------------------------------------------------------------------------------
+// C14: reassembly of multi-frame payloads (data-frames.go).
+//
+// The getter is an arbitrary client function: assumed deterministic and side-effect free (`fnpure`), and assumed to return
+// a non-nil frame whenever it returns no error (fncall clause) — with a getter that answers (nil, nil) the code dereferences
+// nil (reported separately as a robustness note).
+
+//@ func getAllFramesFromDataFrame
+//@   mode int
+//@   option sort-members
+//@   fnpure dataFrameGetter
+//@   fncall dataFrameGetter ensures result1 == nil ==> result0 != nil
+//@   requires firstDataFrame != nil && dataFrameGetter != nil
+//@   # termination: the next-link graph is assumed finite and acyclic (content-addressed links cannot form a cycle); no
+//@   # decreases clause is stated, so the recursion is verified for partial correctness only.
+//@   ensures result1 != nil ==> result0 == nil
+//@   ensures result1 == nil ==> len(result0) >= 1
+//@   # every returned frame is a real frame, and the first frame is among them
+//@   ensures result1 == nil ==> forall i int :: 0 <= i && i < len(result0) ==> result0[i] != nil
+//@   ensures result1 == nil ==> exists i int :: 0 <= i && i < len(result0) && result0[i] == firstDataFrame
+//@   # a frame without next links is returned alone
+//@   ensures !(firstDataFrame.Next != nil && *firstDataFrame.Next != nil && len(**firstDataFrame.Next) > 0) ==> result1 == nil && len(result0) == 1 && result0[0] == firstDataFrame
+//@   loop 0 invariant len(frames) >= 1 && frames[0] == firstDataFrame
+//@   loop 0 invariant forall i int :: 0 <= i && i < len(frames) ==> frames[i] != nil
+
+// LoadDataFromDataFrames. allFrames is the (sorted) frame list returned by getAllFramesFromDataFrame. On success:
+//   (L1) the result is the concatenation of allFrames[i].Data in list order;
+//   (L2) if the first frame records a total, len(allFrames) equals it;
+//   (L3) if the first frame records a hash, the CRC64 or the legacy FNV checksum of the returned bytes equals it.
+// A payload without total/hash is returned unchecked (the property's proviso).
+//
+// (L1) and the "of the returned bytes" part of (L3) need a content model of bytes.Buffer that vcgo does not have yet
+// (Write only bumps written(w); the three dataBuffer.Bytes() calls return unrelated arbitrary slices). The clauses are
+// kept here, ready to be enabled (vocabulary asked from the engine: wbyte(w, k) = k-th byte written to w, Bytes() ==
+// the written bytes, spec-function parameters of type []*ipldbindcode.DataFrame):
+//   spec func foff(fr []*ipldbindcode.DataFrame, i int) int = ite(i <= 0, int(0), foff(fr, i-1) + len(fr[i-1].Data))
+//   ensures result1 == nil ==> len(result0) == foff(allFrames, len(allFrames))
+//   ensures result1 == nil ==> forall i, k int :: 0 <= i && i < len(allFrames) && 0 <= k && k < len(allFrames[i].Data) ==> result0[foff(allFrames, i) + k] == allFrames[i].Data[k]
+//   loop 0 invariant written(dataBuffer) == foff(allFrames, rangeidx0)
+//   loop 0 invariant forall i, k int :: 0 <= i && i < rangeidx0 && 0 <= k && k < len(allFrames[i].Data) ==> wbyte(dataBuffer, foff(allFrames, i) + k) == allFrames[i].Data[k]
+//   loop 0 use unfold(foff(allFrames, rangeidx0 + 1))
+//@ func LoadDataFromDataFrames
+//@   mode int
+//@   fnpure dataFrameGetter
+//@   fncall dataFrameGetter ensures result1 == nil ==> result0 != nil
+//@   requires firstDataFrame != nil && dataFrameGetter != nil
+//@   ensures result1 != nil ==> result0 == nil
+//@   # (L2)
+//@   ensures result1 == nil && firstDataFrame.Total != nil && *firstDataFrame.Total != nil ==> len(allFrames) == **firstDataFrame.Total
+//@   # (L3)
+//@   ensures result1 == nil && firstDataFrame.Hash != nil && *firstDataFrame.Hash != nil ==> ipldbindcode.crc64sum(result0) == uint64(**firstDataFrame.Hash) || ipldbindcode.fnvsum(result0) == uint64(**firstDataFrame.Hash)
+//@   loop 0 invariant 0 <= rangeidx0 && rangeidx0 <= len(allFrames) && dataBuffer != nil
